@@ -88,3 +88,11 @@ def uf_arith_after_pop(script, idx=None):
     if name not in ("QF_UFLRA", "QF_UFLIA", "QF_UFRDL", "QF_UFIDL", "QF_AUFLRA", "QF_AUFLIA", "QF_AUFLIRA", "ALL"):
         return False
     return any(c[0] == "pop" for c in script["cmds"][:idx])
+
+
+def nonincr_second_check(script, idx=None):
+    """':incremental false' and the check is not the first one of the script"""
+    if opts(script).get(":incremental") != "false":
+        return False
+    n = sum(1 for c in script["cmds"][:idx] if c[0] == "check-sat")
+    return n >= 1
